@@ -1,6 +1,6 @@
 \* even when finalize consults the launch cache, a restart between the failed status patch and the deletion
 \* loses the only record of the instance (known finding F-C09-2): the strict invariant is violated
-CONSTANTS Pods = {"p1"}  Tol = {}
+CONSTANTS Pods = {"p1"}  Tol = {}  Late = {}
   Starts = {"unpersisted"}
   VaOwners = {"-"}  TGPs <- BoolF  Instants <- BoolF
   MaxFaults = 0  MaxRestarts = 1  MaxLen = 1000  MaxSpont = 99
